@@ -6,6 +6,7 @@
  *  VSHIM_FAIL=<call>:<substr>:<k>:<errno>   fail the k-th (1-based) call of that kind (pread|pwrite|open|fsync|ftruncate|
  *                         fallocate|rename) on a path containing <substr> with errno; several separated by ','
  *  VSHIM_KILL=<n>[:before|after|short]   kill the process (SIGKILL) at the n-th numbered state-changing call
+ *  VSHIM_KILL_ON=<call>:<substr>:<k>[:before|after]   kill at the k-th numbered call of that kind on a path containing <substr>
  *  VSHIM_TIME=<epoch>     time() returns this value (plus the seconds elapsed since the first call if VSHIM_TIME_RUN=1)
  */
 #define _GNU_SOURCE
@@ -32,6 +33,10 @@ static long counter;
 static long kill_at = -1;
 static int kill_mode; /* 0 before 1 after 2 short */
 static int inited;
+static char kon_call[16], kon_sub[128];
+static long kon_k = -1, kon_seen;
+static int kon_after;
+static volatile int dying;
 
 struct failspec { char call[16]; char sub[128]; long k; int err; long seen; };
 static struct failspec fails[16];
@@ -53,6 +58,11 @@ static void init(void)
 		kill_at = atol(s);
 		if (strstr(s, ":after")) kill_mode = 1;
 		else if (strstr(s, ":short")) kill_mode = 2;
+	}
+	s = getenv("VSHIM_KILL_ON");
+	if (s) {
+		char *dup = strdup(s), *b = strchr(dup, ':'), *c;
+		if (b) { *b++ = 0; c = strchr(b, ':'); if (c) { *c++ = 0; snprintf(kon_call, sizeof kon_call, "%s", dup); snprintf(kon_sub, sizeof kon_sub, "%s", b); kon_k = atol(c); kon_after = strstr(c, ":after") != 0; } }
 	}
 	s = getenv("VSHIM_FAIL");
 	if (s) {
@@ -97,7 +107,12 @@ static long number(const char *call, const char *path)
 {
 	long n;
 	pthread_mutex_lock(&mu);
+	if (dying) { pthread_mutex_unlock(&mu); for (;;) pause(); }   /* the process is being killed: no further effect */
 	n = ++counter;
+	if (kon_k > 0 && path && !strcmp(call, kon_call) && strstr(path, kon_sub) && ++kon_seen == kon_k) {
+		kill_at = n; kill_mode = kon_after ? 1 : 0;
+	}
+	if (n == kill_at && kill_mode == 0) dying = 1;
 	pthread_mutex_unlock(&mu);
 	if (n == kill_at && kill_mode == 0) {
 		logline(n, call, path, "KILL-BEFORE", 0);
